@@ -385,3 +385,213 @@ Definition step_plain (guard : bool) (c : cfg) (w : list node) (ev : event) : li
 (* justifier-level entry point for the direct differential run against bft.justifier (both modes) *)
 Definition tally_votes (pq tv tw : N) (l : list (N * (bool * N))) : justifier :=
   fold_left (fun js x => add_block js (fst x) (fst (snd x)) (snd (snd x))) l (new_js pq tv tw).
+
+(* ================================================================ with a FINALITY fork height *)
+(* The definitions above are the engine and the node for forkConfig.FINALITY = 0 (every theorem of Bft/Proofs*.v is about
+   them).  Below, the same functions with the fork height F as the code uses it (bft/engine.go, bft/justifier.go,
+   cmd/thor/node/block_exec.go, packer_loop.go): computeState answers the zero state below F and does not walk below F;
+   the parent quality is read only after the first round, counted from F / L; ShouldVote refuses COM in that first round;
+   findCheckpointByQuality starts at getCheckPoint(F) while nothing is finalized; Justified() answers finalized until the
+   first round has concluded; the node consults Select only when both blocks are at or after F, calls CommitBlock only for
+   blocks at or after F and asks ShouldVote only for such blocks.  With F = 0 they are the functions above
+   (Bft/ProofsFork.v); the oracle runs these. *)
+
+Definition in_epoch_f (F cp : N) (x : blk) : bool := (cp <=? b_num x) && (0 <? b_num x) && (F <=? b_num x).
+
+Definition segment_f (F : N) (c : cfg) (ch : list blk) : list blk :=
+  match ch with [] => [] | b :: _ => take_while (in_epoch_f F (checkpoint (c_L c) (b_num b))) ch end.
+
+Definition parent_quality_f (F : N) (c : cfg) (qs : list (N * N)) (ch : list blk) : N :=
+  match ch with
+  | [] => 0
+  | b :: _ => if b_num b / c_L c =? F / c_L c then 0
+              else match at_num ch (checkpoint (c_L c) (b_num b) - 1) with
+                   | Some p => get_q qs (b_id p) | None => 0 end
+  end.
+
+Definition state_of_chain_f (F : N) (c : cfg) (qs : list (N * N)) (ch : list blk) : bstate :=
+  match ch with
+  | [] => mkS 0 false false
+  | b :: _ => if (b_num b =? 0) || (b_num b <? F) then mkS 0 false false
+              else summarize (tally c (parent_quality_f F c qs ch) (segment_f F c ch))
+  end.
+
+Definition compute_state_f (F : N) (c : cfg) (r : repo) (qs : list (N * N)) (b : blk) : bstate :=
+  state_of_chain_f F c qs (b :: chain_of r (b_parent b)).
+
+Definition find_cp_f (F : N) (c : cfg) (r : repo) (qs : list (N * N)) (target finalized head : N) : res N :=
+  if idnum head <? idnum finalized then Err 1 else
+  let L := c_L c in
+  let start := if idnum finalized =? 0 then checkpoint L F else idnum finalized in
+  let get := fun i => quality_at r qs head (storepoint L (start + i * L)) in
+  let n := (idnum head - start) / L + 1 in
+  match bsearch (S (N.to_nat n)) (fun i => match get i with Ok q => Ok (target <=? q) | Err e => Err e end) 0 n with
+  | Err e => Err e
+  | Ok num =>
+      if num =? n then Err 2 else
+      match get num with
+      | Err e => Err e
+      | Ok q => if negb (q =? target) then Err 3 else
+                match block_at r head (start + num * L) with Some x => Ok (b_id x) | None => Err 4 end
+      end
+  end.
+
+Definition commit_block_f (F : N) (guard : bool) (c : cfg) (r : repo) (e : engine) (b : blk) (packing : bool) : engine * N :=
+  let L := c_L c in
+  let st := compute_state_f F c r (e_qs e) b in
+  let '(e1, err) :=
+    if storepoint L (b_num b) =? b_num b then
+      let qs' := (b_id b, s_q st) :: e_qs e in
+      let e1 := mkE (e_master e) (e_fin e) qs' (e_casts e) (e_jc e) in
+      if s_comm st && (1 <? s_q st) && (negb guard || (idnum (e_fin e) <? checkpoint L (b_num b))) then
+        match find_cp_f F c r qs' (s_q st - 1) (e_fin e) (b_id b) with
+        | Err code => (e1, code)
+        | Ok id => (mkE (e_master e) id qs' (e_casts e) (e_jc e), 0)
+        end
+      else (e1, 0)
+    else (e, 0) in
+  if negb (err =? 0) then (e1, err) else
+  if packing then
+    match e_casts e1 with
+    | None => (e1, 9)
+    | Some ca =>
+        match block_at r (b_id b) (checkpoint L (b_num b)) with
+        | None => (e1, 4)
+        | Some cpb => (mkE (e_master e1) (e_fin e1) (e_qs e1) (Some (mark ca (b_id cpb) (s_q st))) (e_jc e1), 0)
+        end
+    end
+  else (e1, 0).
+
+Definition select_f (F : N) (c : cfg) (r : repo) (e : engine) (best b : blk) : bool :=
+  let qn := s_q (compute_state_f F c r (e_qs e) b) in
+  let qb := s_q (compute_state_f F c r (e_qs e) best) in
+  if negb (qn =? qb) then qb <? qn else better_than b best.
+
+Definition new_casts_f (F : N) (c : cfg) (r : repo) (e : engine) : list (N * N) :=
+  fold_left (fun ca h =>
+      let ch := chain_of r (b_id h) in
+      match own_latest (e_master e) (idnum (e_fin e)) ch with
+      | None => ca
+      | Some x => match at_num ch (checkpoint (c_L c) (b_num x)) with
+                  | None => ca
+                  | Some cpb => merge_max ca (b_id cpb) (s_q (compute_state_f F c r (e_qs e) x))
+                  end
+      end) (heads_from r (idnum (e_fin e))) [].
+
+Definition should_vote_f (F : N) (c : cfg) (r : repo) (e : engine) (parent : N) : engine * res bool :=
+  let L := c_L c in
+  let ca := match e_casts e with Some ca => ca | None => new_casts_f F c r e end in
+  let e' := with_casts e ca in
+  if (idnum parent + 1) / L =? F / L then (e', Ok false) else
+  match find_blk r parent with
+  | None => (e', Err 4)
+  | Some p =>
+      let st := compute_state_f F c r (e_qs e) p in
+      if s_q st =? 0 then (e', Ok false) else
+      let hq := s_q st in
+      let fin := e_fin e in
+      let jc :=
+        if s_just st then
+          match block_at r parent (checkpoint L (b_num p)) with Some x => Ok (b_id x) | None => Err 4 end
+        else
+          match block_at r parent (storepoint L (b_num p - L)) with
+          | None => Err 4
+          | Some prev => find_cp_f F c r (e_qs e) hq fin (b_id prev)
+          end in
+      match jc with
+      | Err code => (e', Err code)
+      | Ok recent =>
+          (e', Ok (forallb (fun cast =>
+                 if (idnum fin <=? idnum (fst cast)) && (hq - 1 <=? snd cast) then
+                   if idnum recent <? idnum (fst cast) then has_block r (fst cast) recent
+                   else has_block r recent (fst cast)
+                 else true) ca))
+      end
+  end.
+
+Definition justified_f (F : N) (c : cfg) (r : repo) (e : engine) (best : blk) : engine * res N :=
+  let L := c_L c in
+  let fin := e_fin e in
+  if b_num best <? checkpoint L F + L - 1 then (e, Ok fin) else
+  let cp := checkpoint L (b_num best) in
+  let concluded := if b_num best <? storepoint L (b_num best) then cp - L else cp in
+  match block_at r (b_id best) (storepoint L concluded) with
+  | None => (e, Err 4)
+  | Some sb =>
+      let hit := match e_jc e with
+                 | Some (search, f, value) => if (search =? b_id sb) && (f =? fin) then Some value else None
+                 | None => None
+                 end in
+      match hit with
+      | Some value => (e, Ok value)
+      | None =>
+          let q := get_q (e_qs e) (b_id sb) in
+          if q =? 0 then (e, Ok fin) else
+          match find_cp_f F c r (e_qs e) q fin (b_id sb) with
+          | Err code => (e, Err code)
+          | Ok id => (mkE (e_master e) (e_fin e) (e_qs e) (e_casts e) (Some (b_id sb, fin, id)), Ok id)
+          end
+      end
+  end.
+
+(* commitBlock of block_exec.go: Select only when both the new block and the previous best are at or after F, otherwise
+   BetterThan; CommitBlock only for blocks at or after F *)
+Definition add_and_commit_f (F : N) (guard : bool) (c : cfg) (nd : node) (b : blk) (packing : bool) : node * N :=
+  let r := n_repo nd in
+  let e := n_eng nd in
+  let best := if (F <=? b_num b) && (F <=? b_num (best_blk nd)) then select_f F c r e (best_blk nd) b
+              else better_than b (best_blk nd) in
+  let r' := b :: r in
+  let '(e', err) := if F <=? b_num b then commit_block_f F guard c r' e b packing else (e, 0) in
+  (mkN r' (if best then b_id b else n_best nd) e', if err =? 0 then 0 else 100 + err).
+
+Definition import_f (F : N) (guard : bool) (c : cfg) (nd : node) (b : blk) : node * N :=
+  let r := n_repo nd in
+  if known r (b_id b) then (nd, 1)
+  else if negb (known r (b_parent b)) then (nd, 2)
+  else if negb (accepts r (n_eng nd) (b_parent b)) then (nd, 3)
+  else add_and_commit_f F guard c nd b false.
+
+(* packer_loop.go: ShouldVote only for a block at or after F (otherwise the vote is false and the votes record untouched) *)
+Definition propose_f (F : N) (guard : bool) (c : cfg) (nd : node) (b : blk) : node * N * res bool :=
+  if F <=? b_num b then
+    let '(e1, v) := should_vote_f F c (n_repo nd) (n_eng nd) (b_parent b) in
+    let nd1 := mkN (n_repo nd) (n_best nd) e1 in
+    match v with
+    | Err _ => (nd1, 200, v)
+    | Ok _ => let '(nd', code) := add_and_commit_f F guard c nd1 b true in (nd', code, v)
+    end
+  else let '(nd', code) := add_and_commit_f F guard c nd b true in (nd', code, Ok false).
+
+Definition observe_f (F : N) (c : cfg) (nd : node) (code : N) (pre : res bool) (ob : option blk) : node * obs :=
+  let '(e1, j) := justified_f F c (n_repo nd) (n_eng nd) (best_blk nd) in
+  let '(e2, v) := should_vote_f F c (n_repo nd) e1 (n_best nd) in
+  let st := match ob with
+            | Some b => if known (n_repo nd) (b_id b) then compute_state_f F c (n_repo nd) (e_qs e2) b else mkS 0 false false
+            | None => mkS 0 false false end in
+  (mkN (n_repo nd) (n_best nd) e2, mkO code pre (n_best nd) (e_fin e2) j v (s_q st) (s_just st) (s_comm st)).
+
+Definition step_f (F : N) (guard : bool) (c : cfg) (w : list node) (ev : event) : list node * option obs :=
+  match ev with
+  | EImport i b =>
+      match nth_error w i with None => (w, None) | Some nd =>
+        let '(nd1, code) := import_f F guard c nd b in
+        let '(nd2, o) := observe_f F c nd1 code (Ok false) (Some b) in
+        (set_nth w i nd2, Some o) end
+  | EPropose i b =>
+      match nth_error w i with None => (w, None) | Some nd =>
+        let '(nd1, code, v) := propose_f F guard c nd b in
+        let '(nd2, o) := observe_f F c nd1 code v (Some b) in
+        (set_nth w i nd2, Some o) end
+  | ERestart i =>
+      match nth_error w i with None => (w, None) | Some nd =>
+        let '(nd2, o) := observe_f F c (restart nd) 0 (Ok false) None in
+        (set_nth w i nd2, Some o) end
+  end.
+
+Fixpoint run_f (F : N) (guard : bool) (c : cfg) (w : list node) (evs : list event) : list node * list (option obs) :=
+  match evs with
+  | [] => (w, [])
+  | ev :: t => let '(w1, o) := step_f F guard c w ev in
+               let '(w2, os) := run_f F guard c w1 t in (w2, o :: os)
+  end.
